@@ -116,6 +116,20 @@ def nonnativeTaprootLock (pk commitment : Bytes) (flags : Nat) : R Bytes := do
   let b := CALL 0 ++ CHECK_SIG flags
   pure (defOp 0 (pushB root) ++ cond ++ ifElse a b)
 
+def GET_MESSAGE (flags : Nat) := opc 5 ++ opc flags
+def CHECK_ADAPTER_SIG := opc 83
+def DECRYPT_ADAPTER_SIG := opc 84
+
+/-- `make_adapter_locks_pub`, first script (also every hop's first lock of `setup_amhl`): checks the
+    adapter `(sa, R)` the witness pushed against the key and the tweak point -/
+def adapterLock1 (pk tweakPoint : Bytes) (flags : Nat) : Bytes :=
+  GET_MESSAGE flags ++ pushB tweakPoint ++ pushB pk ++ CHECK_ADAPTER_SIG
+
+/-- `make_adapter_decrypt` (ValueError for a tweak shorter than 32 bytes) -/
+def adapterDecrypt (tweak : Bytes) : R Bytes := do
+  let t ← Sodium.clampScalar tweak false
+  pure (pushB t ++ DECRYPT_ADAPTER_SIG)
+
 /-- the time-locked alternative of the HTLC / PTLC locks -/
 def refundArm (deadline : Int) (refund : Bytes) : Bytes := pushInt deadline ++ opc CTSV ++ pushB refund
 
